@@ -13,6 +13,8 @@ pub mod c08;
 pub mod c09;
 pub mod c10;
 pub mod c11;
+pub mod c12;
+pub mod c16;
 pub mod c17;
 
 pub struct PropDef {
@@ -24,7 +26,7 @@ pub struct PropDef {
     pub subs: Vec<Box<dyn SubCheck>>,
 }
 
-pub const ALL: [&str; 12] = ["C01", "C02", "C03", "C04", "C05", "C06", "C07", "C08", "C09", "C10", "C11", "C17"];
+pub const ALL: [&str; 14] = ["C01", "C02", "C03", "C04", "C05", "C06", "C07", "C08", "C09", "C10", "C11", "C12", "C16", "C17"];
 
 pub fn get(id: &str, ctx: &Ctx) -> Option<PropDef> {
     match id {
@@ -39,6 +41,8 @@ pub fn get(id: &str, ctx: &Ctx) -> Option<PropDef> {
         "C09" => Some(c09::def(ctx)),
         "C10" => Some(c10::def(ctx)),
         "C11" => Some(c11::def(ctx)),
+        "C12" => Some(c12::def(ctx)),
+        "C16" => Some(c16::def(ctx)),
         "C17" => Some(c17::def(ctx)),
         _ => None,
     }
